@@ -180,6 +180,14 @@ func (i *Index) unmarshalBinary(data []byte) error {
 		return fmt.Errorf("failed to read capacity: %w", err)
 	}
 	i.capacity = slottools.Uint64FromLEBytes(capacityBuf)
+	if i.capacity > uint64(reader.Len())/4 {
+		// each value takes 4 bytes: a capacity the remaining data cannot hold is corrupt
+		// (and must not be used as an allocation size)
+		return fmt.Errorf("capacity %d exceeds the %d bytes of data", i.capacity, reader.Len())
+	}
+	if i.end < i.start || i.end-i.start >= i.capacity {
+		return fmt.Errorf("slot range %d..%d does not fit the capacity %d", i.start, i.end, i.capacity)
+	}
 
 	i.values = make([]int64, i.capacity)
 	for j := uint64(0); j < i.capacity; j++ {
